@@ -72,7 +72,7 @@ def run(R, ctx):
                       "a failure here is silently lost", where=b.loc(bb))
     R.stats['result_sites'] = counts
     R.ok('R19.1', 'inventory', f"{len(sites)} Result-returning call sites classified: {counts}", sample={'sites': len(sites), 'classes': counts})
-    if len(sites) < 300:
+    if len(sites) < 250:
         raise CheckError(f"only {len(sites)} Result sites classified")
 
     c01.sink_table(R, ctx, 'R19.2')
